@@ -19,7 +19,7 @@ from sim.minimise import ddmin, shrink_history
 
 PROP = 'C13'
 STAGES = ['construct', 'FS', 'FG', 'FL', 'MM']
-LINE_CLASSES = ['rng-sensitive', 'split', 'merge', 'merge+split', 'demo-like', 'msa-crop',
+LINE_CLASSES = ['rng-sensitive', 'split', 'merge', 'multi-merge', 'merge+split', 'demo-like', 'msa-crop',
                 'two-far', 'multi-hit', 'single', 'no-hit', 'refused', 'vv']
 ALL_MERGES_2 = [tuple(1 if i in c else 0 for i in range(10))
                 for c in itertools.combinations(range(10), 5)]
@@ -132,6 +132,7 @@ class SimResult:
 
 
 def _simulate_here(jobs, sched, caps, with_census, clock_seed):
+    seams.install_logical_time()
     census = Census() if with_census else None
     with seams.scripted_clock(kernel.stream(clock_seed, 'clock')) as clock:
         sim = threads.ThreadSim([make_job(s, i) for i, s in enumerate(jobs)], sched,
@@ -154,6 +155,7 @@ def simulate(jobs, sched, refs, census=None, clock_seed=0):
 
 
 def _reference_here(scene, i, clock_seed, with_census, lines):
+    seams.install_logical_time()
     census = Census() if with_census else None
     with seams.scripted_clock(kernel.stream(clock_seed, f'clock-ref-{i}')):
         ref = threads.reference_run(make_job(scene, i), lines=lines, census=census)
@@ -261,7 +263,8 @@ def window_enum(jobs, refs, dirty, seed, out, bump):
 def run_line(seed, out, bump):
     rng_scene = kernel.stream(seed, 'scene')
     n_workers = rng_scene.choice([2, 2, 3])
-    classes = [rng_scene.choice(['rng-sensitive', 'rng-sensitive', 'split', 'demo-like'])]
+    classes = [rng_scene.choice(['rng-sensitive', 'rng-sensitive', 'split', 'demo-like',
+                                 'multi-merge'])]
     classes += [rng_scene.choice(LINE_CLASSES) for _ in range(n_workers - 1)]
     rng_scene.shuffle(classes)
     jobs = [gen_job(rng_scene, c) for c in classes]
@@ -329,7 +332,7 @@ def run_line(seed, out, bump):
 # ------------------------------------------------------------------------------------------
 def sweep_jobs(seed, dense=True):
     rng = kernel.stream(seed, 'scene')
-    ca = rng.choice(['demo-like', 'rng-sensitive', 'merge+split', 'demo-like'])
+    ca = rng.choice(['demo-like', 'rng-sensitive', 'merge+split', 'demo-like', 'multi-merge'])
     cb = rng.choice(['demo-like', 'rng-sensitive', 'split'])
     # the parked worker keeps (mostly) default parameters, the other one gets a non-default value
     # for every leaf: whatever parameter-derived state leaks from B is then wrong for A
@@ -612,7 +615,10 @@ def describe(tier, agg):
             'components_real': ['ampycloud (working tree)', 'numpy', 'pandas', 'scikit-learn',
                                 'statsmodels', 'real OS threads (parked on semaphores)'],
             'components_stubbed': ['choice of which thread runs (seeded scheduler)',
-                                   'wall clock (ampycloud.core.datetime scripted)'],
+                                   'wall clock (ampycloud.core.datetime scripted)',
+                                   'the time module as seen from ampycloud modules (logical '
+                                   'clock: 1 ms per line event of any worker; the unchanged '
+                                   'tree never reads it)'],
             'fault_kinds_not_injected': {
                 'message loss/partition/crash-restart/disk faults': 'no such behaviour in the '
                                                                      'package',
